@@ -153,7 +153,10 @@ Section Dispatch.
     let n := clock s in
     match d with
     | DInvalid => (s, VStart n id d :: answer n id CErr)
-    | DQuery | DMutation => (s, VStart n id d :: VExec n :: answer n id (CRes n))
+    | DQuery | DMutation =>
+        (* API.execute: Config.Execute is called; if closing has begun the handler's context is already
+           cancelled (beginClosing calls Cancel()): the resolvers do not run, the result carries errors only *)
+        (s, VStart n id d :: VExec n :: answer n id (match closing s with Some _ => CErr | None => CRes n end))
     | DSub =>
         let (s1, o1) := release_ended s id in
         match lookup id (subs s1) with
